@@ -18,6 +18,7 @@ import (
 	builderapi "github.com/attestantio/go-builder-client/api"
 	"github.com/attestantio/go-builder-client/api/deneb"
 	builderspec "github.com/attestantio/go-builder-client/spec"
+	consensusclient "github.com/attestantio/go-eth2-client"
 	"github.com/attestantio/go-eth2-client/api"
 	apiv1 "github.com/attestantio/go-eth2-client/api/v1"
 	"github.com/attestantio/go-eth2-client/spec"
@@ -128,6 +129,17 @@ func (relayValidators) Validators(context.Context, *api.ValidatorsOpts) (*api.Re
 	return nil, strErr("not available")
 }
 
+// relaySecondary is a beacon node that receives the consensus registrations.
+type relaySecondary struct{}
+
+func (relaySecondary) Name() string    { return "secondary" }
+func (relaySecondary) Address() string { return "secondary:5052" }
+func (relaySecondary) IsActive() bool  { return true }
+func (relaySecondary) IsSynced() bool  { return true }
+func (relaySecondary) SubmitValidatorRegistrations(context.Context, []*api.VersionedSignedValidatorRegistration) error {
+	return nil
+}
+
 // relayBids implements builderbid.Provider: reads all of the settings it is
 // given (as the real provider does) and answers by slot.
 type relayBids struct{}
@@ -171,8 +183,8 @@ func relayBodies(seq uint64) [][]byte {
 	urls := relayServers()
 	fee := func(b byte) string { return fmt.Sprintf("0x%02x00000000000000000000000000000000000000", b) }
 	v2a := fmt.Sprintf(`{"version":2,"fee_recipient":"%s","gas_limit":"30000000","relays":{"%s":{"grace":"10"},"%s":{}},
- "proposers":[{"proposer":"%#x","fee_recipient":"%s","relays":{"%s":{"disabled":true}}},{"proposer":"^wallet/acct[bc]$","gas_limit":"25000000"}]}`,
-		fee(0x11), urls[0], urls[1], pubKeyOf(0), fee(0x12), urls[1])
+ "proposers":[{"proposer":"%#x","fee_recipient":"%s","relays":{"%s":{"disabled":true},"%s":{"gas_limit":"26000000","min_value":"0.01"}}},{"proposer":"^wallet/acct[bc]$","gas_limit":"25000000"}]}`,
+		fee(0x11), urls[0], urls[1], pubKeyOf(0), fee(0x12), urls[1], urls[0])
 	v2b := fmt.Sprintf(`{"version":2,"fee_recipient":"%s","relays":{"%s":{"gas_limit":"20000000"}},"proposers":[{"proposer":"%#x","reset_relays":true,"relays":{"%s":{"fee_recipient":"%s"}}}]}`,
 		fee(0x21), urls[0], pubKeyOf(4), urls[1], fee(0x22))
 	// legacy: neither gas_limit nor builder in the default entry, no gas_limit in a proposer entry
@@ -220,6 +232,7 @@ func buildRelay(sc *Scenario) (world, error) {
 		standardrelay.WithValidatorsProvider(relayValidators{}),
 		standardrelay.WithValidatingAccountsProvider(relayAccounts{w.accts, w}),
 		standardrelay.WithValidatorRegistrationSigner(relaySigner{}),
+		standardrelay.WithSecondaryValidatorRegistrationsSubmitters([]consensusclient.ValidatorRegistrationsSubmitter{relaySecondary{}}),
 		standardrelay.WithReleaseVersion("verif"),
 		standardrelay.WithBuilderBidProvider(relayBids{}),
 	)
